@@ -1012,16 +1012,17 @@ structure RespSt where
   ssePend : Bytes := []             -- EventSource.raw (is .body) : bytes not yet split into lines
 deriving Repr, DecidableEq
 
-def RespSt.raise (s : RespSt) (e : Exn) : RespSt :=
-  if catchMessage e then { s with done := s.done ++ [.err e], phase := .failed }
-  else { s with phase := .escaped e.cls }
-
 def RespSt.isEv (s : RespSt) : Bool := s.evented == some true
 
 /-- Respondent.retry / .leid : copied from the event source after every parse when it has a value -/
 def RespSt.curRetry (s : RespSt) : Nat := if s.isEv then s.sse.retry.getD s.retry else s.retry
 def RespSt.curLeid (s : RespSt) : Option Bytes :=
   if s.isEv then (match s.sse.leid with | some x => some x | none => s.leid) else s.leid
+
+/-- an exception ends the message; what the event source had copied into .retry / .leid stays -/
+def RespSt.raise (s : RespSt) (e : Exn) : RespSt :=
+  if catchMessage e then { s with done := s.done ++ [.err e], phase := .failed, retry := s.curRetry, leid := s.curLeid }
+  else { s with phase := .escaped e.cls }
 
 def RespSt.finish (s : RespSt) : RespSt :=
   let ev := if s.isEv then some s.sse.events else none
@@ -1231,6 +1232,23 @@ def respFinal (st : RespSt × Bytes) (closed : Bool) : RespSt × Bytes :=
 /-- Client.service over a sequence of reads -/
 def respRun (head : Bool) (frags : List Bytes) (closed : Bool) : RespSt × Bytes :=
   respFinal (frags.foldl respReader.feed (({ head := head } : RespSt), [])) closed
+
+/-- the client re-requests on a new connection (event stream reconnect): serviceResponse has called makeParser() if the
+message had ended, transmit() calls reinit().  What survives in the Respondent: last event id, retry, and the stale
+attributes; the next evented head builds a new event source over an emptied buffer (`respHeadDone`). -/
+def RespSt.reconnect (s : RespSt) : RespSt :=
+  match s.phase with
+  | .halted => { s with phase := .status true, evented := none }
+  | .failed => { s with phase := .status true, evented := none }
+  | _ => { s with evented := none }
+
+/-- a sequence of connections through one Respondent: per connection the reads, then the far side closes, then the
+reconnect.  Returns the state (with its leftover receive buffer) after every connection, before the reconnect. -/
+def respSeq : RespSt × Bytes → List (List Bytes) → List (RespSt × Bytes)
+  | _, [] => []
+  | st, frags :: more =>
+    let st' := respFinal (frags.foldl respReader.feed st) true
+    st' :: respSeq (st'.1.reconnect, st'.2) more
 
 /-- Server.serviceReqs over a sequence of reads on one connection -/
 def reqRun (bad : List Bytes) (frags : List Bytes) : ReqSt × Bytes :=
